@@ -1010,6 +1010,60 @@ fn cancel_in_another_account_then_finalize(w: &mut World, rep: &mut Report, rng:
 	cleanup(w);
 }
 
+/// The command line's order again (reserve with the reply, then finalize), with a reply whose public excess was
+/// replaced by the excess of a kernel that is already on chain. Finalization must fail - and the pending send must
+/// still be cancellable afterwards, also after the wallet has refreshed (send without change output: such sends
+/// are confirmed by looking their kernel up).
+fn refused_reply_with_an_on_chain_excess(w: &mut World, rep: &mut Report, prop: &str) {
+	fund(w);
+	let wal = &w.wallets[0];
+	let _ = wal.refresh();
+	let height = w.node.chain().head().map(|h| h.height).unwrap_or(0);
+	let coin = wal.all_outputs().unwrap_or_default().into_iter().filter(|o| o.eligible_to_spend(height, 1) && o.root_key_id == wal.active_account().unwrap()).map(|o| o.value).max().unwrap_or(0);
+	let pre = wal.info(false, 1).map(|i| i.1.amount_currently_spendable).unwrap_or(0);
+	let case = json!({"job": prop, "scenario": "send without change reserved with the recipient's reply; the reply's public excess is that of a kernel already on chain; finalize, refresh, cancel"});
+	let chain = w.node.chain();
+	let on_chain = chain.head().ok().and_then(|h| chain.get_block(&h.last_block_h).ok()).and_then(|b| b.kernels().get(0).map(|k| k.excess));
+	let r = (|| -> Result<(Slate, Slate), libwallet::Error> {
+		let s1 = wal.init_send(InitTxArgs { amount: coin, amount_includes_fee: Some(true), minimum_confirmations: 1, max_outputs: 1, num_change_outputs: 1, selection_strategy_is_use_all: false, ..Default::default() })?;
+		let s2 = w.wallets[1].receive(&s1, None)?;
+		Ok((s1, s2))
+	})();
+	let (s1, mut reply) = match (r, on_chain) {
+		(Ok(x), Some(_)) => x,
+		_ => {
+			rep.count("refused-reply-on-chain-excess:setup-failed");
+			cleanup(w);
+			return;
+		}
+	};
+	let secp = wal.keychain();
+	if let (Some(c), Some(p)) = (on_chain, reply.participant_data.get_mut(0)) {
+		if let Ok(pk) = c.to_pubkey(secp.secp()) {
+			p.public_blind_excess = pk;
+		}
+	}
+	rep.eval();
+	let _ = wal.lock_outputs(&reply);
+	let fin = wal.finalize(&reply);
+	let _ = wal.refresh();
+	let _ = w.mine(None, false);
+	let _ = w.wallets[0].refresh();
+	let wal = &w.wallets[0];
+	let c = wal.cancel(None, Some(s1.id));
+	let sp = wal.info(true, 1).map(|i| i.1.amount_currently_spendable).unwrap_or(0);
+	if fin.is_ok() {
+		rep.violation(&format!("{}|altered-excess-accepted|locked-with-the-reply", prop), "a reply whose public excess was replaced was finalized", case);
+	} else if c.is_err() || sp < pre {
+		let e = wal.all_txs().unwrap_or_default().into_iter().find(|t| t.tx_slate_id == Some(s1.id)).map(|t| (type_str(&t.tx_type).to_string(), t.confirmed));
+		rep.violation(&format!("{}|not-cancellable-after-refused-reply|locked-with-the-reply|excess-of-an-on-chain-kernel", prop), &format!("after a refused reply (and a refresh) the pending send could not be cancelled back to the pre-send balance: cancel {:?}, spendable {} vs {}, entry {:?}", c.map_err(|e| err_kind(&e)), sp, pre, e), case);
+	} else {
+		rep.count("refused-reply-on-chain-excess:still-cancellable-after-refresh");
+	}
+	let _ = w.wallets[1].cancel(None, Some(s1.id));
+	cleanup(w);
+}
+
 /// A late-locked send driven in the order the command-line `send` uses: init_send_tx(late_lock), then
 /// tx_lock_outputs (the CLI calls it after every init), the recipient's reply, finalize_tx - retried once if
 /// refused. Whatever is returned from finalization must spend exactly inputs reserved for that send.
@@ -1105,6 +1159,11 @@ pub fn run(a: &Args, prop: &'static str) {
 	let donor = make_pending(&mut w, &mut rng, Flow::Send, true).ok().map(|p| p.honest_reply);
 	cleanup(&mut w);
 	let mut last_proof: Option<PaymentProof> = None;
+	// (first, while the two accounts' logs are still short: aligning their next log ids takes one padding entry per
+	// entry of difference)
+	if !proof_focus && a.shard % 3 == 0 {
+		cancel_in_another_account_then_finalize(&mut w, &mut rep, &mut rng, prop);
+	}
 	for si in 0..n_scen {
 		let flow = flows[(si + a.shard) % flows.len()];
 		let with_proof = proof_focus || rng.chance(1, 3);
@@ -1222,8 +1281,8 @@ pub fn run(a: &Args, prop: &'static str) {
 		cancelled_then_finalized(&mut w, &mut rep, &mut rng, prop, a.shard % 2 == 1);
 		late_lock_cli_order(&mut w, &mut rep, &mut rng, prop, a.shard % 2 == 0);
 		late_lock_cli_order(&mut w, &mut rep, &mut rng, prop, a.shard % 2 == 1);
-		if a.shard % 3 == 0 {
-			cancel_in_another_account_then_finalize(&mut w, &mut rep, &mut rng, prop);
+		if a.shard % 3 == 1 {
+			refused_reply_with_an_on_chain_excess(&mut w, &mut rep, prop);
 		}
 	}
 	if proof_focus {
